@@ -237,6 +237,11 @@ func (srv *Srv) walkPost(req *SrvReq) {
 	}
 
 	n := len(rc.Wqid)
+	if n != len(req.Tc.Wname) {
+		/* partial walk: neither fid changes (newfid may be fid itself) */
+		return
+	}
+
 	if n > 0 {
 		req.Newfid.Type = rc.Wqid[n-1].Type
 	} else {
